@@ -2,8 +2,8 @@
 from vfam import *  # noqa
 from remerkleable.core import Path
 
-THEOREMS = ["C08_static_eq_spec", "C08_invalid_key_rejected", "C08_path", "C08_to_gindex"]
-PARTIAL = ["C08_node (the backing node at the index has the root of the addressed sub-value) and C08_dynamic (gindex(view) / navigate_view agree with the static index) are covered by the correspondence (node_at_gindex observable against the model, model-free dynamic oracle), not yet by theorems; C08_concat at the bit level (path(concat a b) = path a ++ path b) is not a separate theorem: Path.gindex() is proved to be concat_gindices of the specification's step indices"]
+THEOREMS = ["C08_static_eq_spec", "C08_invalid_key_rejected", "C08_path", "C08_to_gindex", "C08_concat_paths", "C08_node_step", "C08_node", "C08_mixin_node"]
+PARTIAL = ["static index = spec index, rejection of invalid keys, bit-level concat law and node addressing on values (C08_node: any representation, whole paths through composite children, mix-in nodes) are proved; chunk addressing of packed elements / bits is proved inside the C02 serialisation theorem (packed_elems, bits_core) rather than as a C08 statement; C08_dynamic (gindex(view) / navigate_view of the Python objects agree with the static index) is covered by the correspondence (node_at_gindex observable, model-free dynamic oracle)"]
 COQ_IMPORTS = ["RM.Types", "RM.ModelPaths", "RMR.RunC08"]
 COQ_FN = "RunC08.run"
 COQ_CASE_TY = "RunC08.case"
